@@ -665,6 +665,43 @@ def _derives_from(v: Any, src: Any, depth: int = 0, seen: Any = None) -> bool:
     return any(_derives_from(x, src, depth + 1, seen) for x in subs if x is not None)
 
 
+def _factory_allowlist_kinds(ctx: Ctx) -> set:
+    """In which form jsx_tag_create hands its allow-list to JSXTag: as given (a list), or converted (tuple(...), frozenset(...)) -
+    the constructor's check has to work for that form too."""
+    import ast
+    try:
+        fn = ctx.prog.function(JSX, "jsx_tag_create")
+    except Exception:
+        return set()
+    binds: Dict[str, ast.expr] = {}
+    for n in ast.walk(fn):
+        if isinstance(n, ast.Assign) and len(n.targets) == 1 and isinstance(n.targets[0], ast.Name):
+            binds[n.targets[0].id] = n.value
+
+    def kinds_of(e: ast.expr, depth: int = 0) -> set:
+        if depth > 4:
+            return set()
+        if isinstance(e, ast.IfExp):
+            return kinds_of(e.body, depth + 1) | kinds_of(e.orelse, depth + 1)
+        if isinstance(e, ast.Call) and isinstance(e.func, ast.Name):
+            return {"tuple": {"TUPLE"}, "frozenset": {"SET"}, "set": {"SET"}, "list": {"LIST"}, "sorted": {"LIST"}}.get(e.func.id, set())
+        if isinstance(e, (ast.Tuple,)):
+            return {"TUPLE"}
+        if isinstance(e, (ast.Set, ast.SetComp)):
+            return {"SET"}
+        if isinstance(e, ast.Name) and e.id in binds:
+            return kinds_of(binds[e.id], depth + 1)
+        return set()
+
+    out: set = set()
+    for n in ast.walk(fn):
+        if isinstance(n, ast.Call) and isinstance(n.func, ast.Name) and n.func.id == "JSXTag":
+            for kw in n.keywords:
+                if kw.arg == "allowedProps":
+                    out |= kinds_of(kw.value)
+    return out
+
+
 def memoised_serialisers(ctx: Ctx) -> None:
     """A function on the conversion path that is memoised with an untyped cache answers for True what it computed for 1 / 1.0
     (cache keys compare with ==): the JavaScript written for a prop then depends on what was converted before."""
@@ -697,15 +734,18 @@ def init_allowlist(ctx: Ctx, I: Interp) -> None:
     cfg.opaque_all = True
     cfg.coarse_counts = True
 
+    ap_kinds = {"NONE", "LIST"} | _factory_allowlist_kinds(ctx)
+
     def mk(run: Any):
         s = SNew(prog.jsx().classes["JSXTag"])
         kw = SDict(name="kwargs", concrete=False)
-        ap = SObj("allowedProps", {"NONE", "LIST"})
+        ap = SObj("allowedProps", ap_kinds)
         run.__dict__["o"] = (s, kw, ap)
         b = {a.args[0].arg: s, a.args[1].arg: SObj("_name", {"STR"}), a.vararg.arg: (), "allowedProps": ap, a.kwarg.arg: kw}
         return (b, s)
 
     n_reject = 0
+    reject_kinds: set = set()
     for l in I.run_function(JSX, "JSXTag.__init__", mk, cfg):
         s, kw, ap = l.run.__dict__["o"]
         stores = [i for i, e in enumerate(l.effects) if e.kind == "store_attr" and e.target is s and not e.__dict__.get("in_loop")]
@@ -714,15 +754,21 @@ def init_allowlist(ctx: Ctx, I: Interp) -> None:
         if l.kind == "raise":
             if member and member[0][1] is False:
                 n_reject += 1
+                reject_kinds.update(ap.kinds)
                 ctx.check(not stores and getattr(l.value, "cls_name", "") == "NotImplementedError", "C20.allow", "a prop outside the allow-list is rejected before any field is set", where,
                           f"raise {getattr(l.value, 'cls_name', '?')} after {len(stores)} stores", "a disallowed prop is rejected only after the component has been partly built")
             continue
-        if ap.kinds <= {"LIST"} and l.run.path.memo.get(("nonempty", ap.uid), l.run.path.memo.get(("truthy", ap.uid))) == 0:
+        if ap.kinds <= {"LIST", "TUPLE", "SET"} and l.run.path.memo.get(("nonempty", ap.uid), l.run.path.memo.get(("truthy", ap.uid))) == 0:
             ctx.check(bool(loops) and (not stores or loops[0] < stores[0]), "C20.allow", "with an allow-list, every keyword is checked before the fields are assigned", where,
                       f"loop at {loops[:1]}, first store at {stores[:1]}", "the allow-list check does not precede construction (or is missing)",
                       witness="jsx_tag_create('Foo', allowedProps=['a'])(b=1)")
     ctx.check(n_reject >= 1, "C20.allow", "a keyword not in allowedProps raises", where, "no rejecting path", "props outside the declared allow-list are accepted",
               witness="jsx_tag_create('Foo', allowedProps=['a'])(b=1)")
+    for k_ in sorted(ap_kinds - {"NONE", "LIST"}):
+        ctx.check(k_ in reject_kinds, "C20.allow", f"the allow-list is enforced in the form jsx_tag_create passes it ({k_.lower()})", where,
+                  f"allowedProps as {k_.lower()}: rejecting path {'found' if k_ in reject_kinds else 'missing'}",
+                  f"jsx_tag_create hands its allow-list to JSXTag as a {k_.lower()}, and for that form JSXTag.__init__ has no path that rejects an unknown prop: "
+                  f"components made by the factory accept every prop", witness="jsx_tag_create('Card', allowedProps=['title'])(colour='red')")
     # the props are the keywords that were checked: nothing taken from the positional arguments ends up in .attrs
     def mk2(run: Any):
         s = SNew(prog.jsx().classes["JSXTag"])
